@@ -264,6 +264,13 @@ func (g *Cfg) WrapOf(t *rapid.T, k string, c *Spec) *Spec {
 		for i := 0; i < n; i++ {
 			s.S = append(s.S, str(t, "key"))
 		}
+		if n >= 2 && rapid.Bool().Draw(t, "descending") {
+			// keys given in descending order (an observer that sorts them in place would show)
+			SortStrings(s.S)
+			for i, j := 0, len(s.S)-1; i < j; i, j = i+1, j-1 {
+				s.S[i], s.S[j] = s.S[j], s.S[i]
+			}
+		}
 	case "domain", "handleddomain":
 		s.S = []string{str(t, "domain")}
 	case "ukeymarker":
